@@ -106,6 +106,19 @@ Theorem C17_restore : forall (R : rules) (c : cfg) (s : st) (t : tid) (x : sel) 
 Proof. exact restore. Qed.
 Print Assumptions C17_restore.
 
+(* "whether it exits normally or by exception": backend_context is `try: yield / finally: set_backend(old)`
+   with no except clause, so in the model the two exits are ONE state transition (the flag of Exit_ is not
+   looked at: this theorem holds by computation, and the `forall e` in C17_restore, C17_restore_observed,
+   C17_exit_succeeds, C17_global_exit_published adds nothing beyond it); they differ only in the observable:
+   after an exit by exception the body's exception propagates out of the `with` statement (OReraised).  That
+   the CODE behaves like this (finally runs, exception neither swallowed nor replaced) is exercised by the
+   correspondence, which drives real exceptions through real contexts and compares the outcome *)
+Theorem C17_exit_by_exception_same_restore : forall (R : rules) (c : cfg) (s : st) (t : tid),
+  nxt R c s (Exit_ t true) = nxt R c s (Exit_ t false) /\
+  out R c s (Exit_ t true) = match out R c s (Exit_ t false) with ODone => OReraised | o => o end.
+Proof. exact exit_exception_same_restore. Qed.
+Print Assumptions C17_exit_by_exception_same_restore.
+
 Theorem C17_restore_observed : forall (R : rules) (c : cfg) (s : st) (t : tid) (x : sel) (l : bool) (b : inst) (h : list op) (e : bool),
   (forall n, isinst R (Named n) = true) -> wf R s -> resolve R c x = Some b -> seg R c t 0 h ->
   let hist := Enter t x l :: h ++ [Exit_ t e] in
@@ -263,6 +276,19 @@ Theorem C17_micro_own_selection_atomic : forall (R : rules) (c : cfg) (b0 : bst)
 Proof. exact micro_own_selection_atomic. Qed.
 Print Assumptions C17_micro_own_selection_atomic.
 
+(* ... and with the hypothesis stated on the PROGRAMS instead of the linearisation: a thread-local slot is
+   never cleared, so it suffices that every thread for which the schedule begins a context entry holds a
+   selection of its own in the start state *)
+Theorem C17_micro_own_selection_atomic_programs : forall (R : rules) (c : cfg) (b0 : bst) (l : list oev),
+  let s := fst (orun R c (quiet b0) l) in
+  (forall t, m_pend (o_m s) t = []) ->
+  (forall t x lf, In (OBegin (Enter t x lf)) l -> p_tls (b_priv b0 t) <> None) ->
+  exists h : list op,
+    seqv (to_st (m_b (o_m s))) (run R c (to_st b0) h) /\
+    forall t, p_out (b_priv (m_b (o_m s)) t) = p_out (b_priv b0 t) ++ own_trace R c t (to_st b0) h.
+Proof. exact micro_own_selection_atomic_programs. Qed.
+Print Assumptions C17_micro_own_selection_atomic_programs.
+
 (* "backend_context entry is atomic" is refuted (repaired rules): a thread WITHOUT a selection of its
    own enters a non-local context while another thread completes a non-local set_backend between the
    entry's read and its write; a third thread then sees bka, and numpy after the exit - neither
@@ -315,7 +341,7 @@ Example C17_seg_nonvacuous :
             Enter 1 (SInst (Obj 1)) false; Query 1; Set_ 2 (SInst (Obj 3)) false; Exit_ 1 true; Dispatch 3] in
   seg fixed_rules cfg0 1 0 h /\
   trace fixed_rules cfg0 s0 (Query 1 :: Enter 1 (SName 1) true :: h ++ [Exit_ 1 false; Query 1; Query 3])
-  = [OName 0; ODone; ODone; ODone; ORejected; ODone; OName 2; ODone; ODone; OInst (Obj 0); ODone; OName 0; OName 1].
+  = [OName 0; ODone; ODone; ODone; ORejected; ODone; OName 2; ODone; OReraised; OInst (Obj 0); ODone; OName 0; OName 1].
 Proof.
   cbv zeta. split; [|vm_compute; reflexivity].
   apply seg_set. apply seg_other; [discriminate|]. apply seg_enter_rej; [reflexivity|].
@@ -358,5 +384,16 @@ Example C17_micro_own_selection_nonvacuous :
   = Some [Set_ 2 (SInst (Obj 5)) true; Set_ 1 (SName 1) false; Enter 2 (SInst (Obj 0)) false; Query 3;
           Exit_ 2 true; Query 3; Query 2] /\
   p_out (b_priv (m_b (o_m (fst r))) 3) = [OName 1; OName 6] /\
-  p_out (b_priv (m_b (o_m (fst r))) 2) = [ODone; ODone; ODone; OName 6].
+  p_out (b_priv (m_b (o_m (fst r))) 2) = [ODone; ODone; OReraised; OName 6].
 Proof. exact own_selection_nonvacuous. Qed.
+
+(* non-vacuity of C17_micro_own_selection_atomic_programs: thread 2 starts with Obj 5 selected; its NON-local
+   entry is split by thread 1's set_backend; it leaves by exception (OReraised) *)
+Example C17_micro_own_selection_programs_nonvacuous :
+  let r := orun fixed_rules cfg0 (quiet b01) sched_prog in
+  (forall t, m_pend (o_m (fst r)) t = []) /\
+  (forall t x lf, In (OBegin (Enter t x lf)) sched_prog -> p_tls (b_priv b01 t) <> None) /\
+  snd r = [ASaveOp 2; AOp (Set_ 1 (SName 1) false); AEnterRest 2 (SInst (Obj 0)) false; AOp (Exit_ 2 true); AOp (Query 3)] /\
+  p_out (b_priv (m_b (o_m (fst r))) 2) = [ODone; OReraised] /\
+  p_out (b_priv (m_b (o_m (fst r))) 3) = [OName 6].
+Proof. exact own_selection_programs_nonvacuous. Qed.
